@@ -442,12 +442,15 @@ pub fn check_fq12(c: &Fq12Case, info: &mut Info) -> Result<(), String> {
     Ok(())
 }
 
+crate::long_sub!(run_long_history, [20, 21]);
+
 pub fn def() -> PropDef {
     PropDef {
         id: "C09",
         rule: "elements of Fq2 / Fq6 / Fq12 built from per-coefficient boundary + uniform Fq recipes under structural masks (dense, any mask, in Fq, in Fq2, in Fq6, Fq4-type, pure w-odd part, zero, one, powers of the generators u, v, w); sparse operands with zero / subfield / uniform entries; Frobenius powers 0..=40, 12m+j, 2^31, usize::MAX-j. Oracle: pairs with u^2=-1 and the flat ring Fq[w]/(w^12-2w^6+2), Frobenius by generic powering of w. Non-trivial = an operand outside Fq; distinct = distinct cases",
         needs_pairing: false,
         subs: vec![
+            Box::new(crate::engine::EnumSub { name: "long-history", rule: super::longhist::RULE, run: run_long_history, replay: super::longhist::replay, exhaustive: false }),
             Box::new(Sub { name: "fq2", rule: "Fq2 add/sub/neg/double/mul/square/inverse/mul_by_nonresidue/norm/frobenius/is_zero/==", quick: 120_000, thorough: 1_000_000, strategy: || boxed(fq2_case_strategy()), check: check_fq2 }),
             Box::new(Sub { name: "fq6", rule: "Fq6 ring ops, inverse, mul_by_nonresidue (x v), mul_by_1, mul_by_01, frobenius", quick: 48_000, thorough: 500_000, strategy: || boxed(fq6_case_strategy()), check: check_fq6 }),
             Box::new(Sub { name: "fq12", rule: "Fq12 ring ops, inverse, conjugate (= x^(q^6)), mul_by_014, frobenius", quick: 48_000, thorough: 500_000, strategy: || boxed(fq12_case_strategy()), check: check_fq12 }),
